@@ -1,8 +1,8 @@
 SPECIFICATION Spec
 CONSTANTS
   Record = TRUE
-  Scripts <- ScriptsX
-  FaultChoices <- ExpFaults
+  Scripts <- ScriptsXq
+  FaultChoices <- ExpFaultsQ
 CONSTRAINT ExportC
 INVARIANT EachOnce
 INVARIANT ReturnsAfterAll
